@@ -25,7 +25,7 @@ func (r *Run) execProfileTx(t *Task, idx int, tx *TxPlan) bool {
 	case "restore":
 		r.execRestore(t, idx, tx)
 	case "timeline":
-		r.execTimeline(t)
+		r.execTimeline(t, tx.Arg)
 	case "idle":
 		for i := 0; i < tx.N; i++ {
 			t.Yield("idle", NeedNone)
